@@ -236,3 +236,36 @@ def check_C12(ctx):
 
 def replay_C12(ctx):
     return check_C12(ctx)
+
+
+# ------------------------------------------------------------------------------------------------ C18
+
+def check_C18(ctx):
+    def interpret(ctx, defs, summ):
+        found = False
+        mm = re.findall(r'"([^"]+)"', defs.get("model_mismatch", "").split(":")[0])
+        sm = re.findall(r'"([^"]+)"', defs.get("spec_mismatch_noswap", "").split(":")[0])
+        nsw = int(re.sub(r"\D", "", defs.get("spec_mismatch_swap", "0").split(":")[0]) or 0)
+        nobs = int(re.sub(r"\D", "", defs.get("n_observed", "0").split(":")[0]) or 0)
+        ctx.coverage["traces_validated_against_impl"] = nobs - len(mm)
+        ctx.coverage["swap_fixed_in_template"] = defs.get("swap_fixed_now", "").strip().startswith("true")
+        ctx.coverage["disagreements"] = {"sample_vs_cell_model": len(mm), "sample_vs_plain_list_without_swap": len(sm), "sample_vs_plain_list_with_swap": nsw}
+        for pn in sm[:5]:
+            found = True
+            ctx.violation("C18:sample:" + pn, "property %s does not behave as a plain list on a sampled sequence" % pn, {"kind": "sample", "property": pn})
+        if nsw and not any(v for v in (summ.get("violations") or [])):
+            found = True
+            ctx.violation("C18:swap-iteration", "iteration after Swap differs from the plain list", {"kind": "sample", "count": nsw})
+        if mm and not found and not (summ.get("violations") or []):
+            ctx.violation("C18:model-drift", "cell-level container model disagrees with the running code",
+                          {"kind": "correspondence", "projection": "C18 sampled sequences vs Streams/Container.v", "properties": mm[:10]}, nofail=True)
+        return found or bool(summ.get("violations"))
+    return generic_table_check(ctx, "C18", "Properties/C18.v", ["c18"], "C18Cases.v",
+                               ["Streams/Container.vo", "Streams/ContainerTemplate.vo", "Gen/TablesShipped.vo"],
+                               ["Streams/Container.v (slice of iterator cells with their own indices), Streams/Slot.v (representation slots)",
+                                "modelled, not verified: Go slice append/copy semantics as list operations; pointer identity of iterators (parent links) is not modelled beyond the index; At/Set/Remove/Insert with an out-of-range index panic in Go and are excluded by ops_in_range"],
+                               interpret)
+
+
+def replay_C18(ctx):
+    return check_C18(ctx)
